@@ -61,5 +61,8 @@ package sorting
 // The contextual and date comparators must be functions of (a, b) alone.
 //@ func ByContextualEx$1 at "set = inferSortSetByValue(a)"
 //@   pure
+// two keys that both parse as dates are ordered chronologically (by the instants, not by a
+// coarser projection of them)
 //@ func ByDate$1 at "dateparse.ParseFormat(a)"
 //@   pure
+//@   assert at "return d" : $ret == t_before(d0, d1)
